@@ -381,10 +381,10 @@ def _r_view(root: Any, op: dict, a: Action, idx: Any) -> Action:
         if 'vals' in op:
             a.removed = [x for x in rawcur if not _ident_in(x, now)]
             a.inserted = [x for x in now if not _ident_in(x, rawcur)]
-            a.changed = [x for x in rawcur if _ident_in(x, now)] if name in ('set', 'setslice') else []
+            a.changed = [x for x in rawcur if _ident_in(x, now)] if name in ('set', 'setslice', 'reverse') else []
     if 'vals' in op:
         a._after = after
-        if name in ('set', 'setslice'):
+        if name in ('set', 'setslice', 'reverse'):
             a.changed = list(rawcur or [])
     if op.get('misfit'):
         a.syntax_ok = False
